@@ -716,3 +716,30 @@ pub fn black_hole_datagrams_native(_x: u8) -> u32 {
     assert!(!conn.datagrams.send_blocked, "application not told that datagrams can be sent again");
     1
 }
+
+/// Native replay body for the E2 slice query `e2_poll_transmit_pad_guard_slice` (C13): an established
+/// connection with `pad_to_mtu` on and an MTU estimate of 1452 owes one loss probe.  Loss probes are
+/// the packets that must get through a path whose MTU has silently shrunk: the datagram carrying it
+/// may not exceed 1200 bytes, padding or not.
+pub fn loss_probe_size_native(_x: u8) -> u32 {
+    let mut conn = mk_conn(false, false);
+    let mut cfg = TransportConfig::default();
+    cfg.pad_to_mtu(true);
+    conn.config = Arc::new(cfg);
+    conn.state = State::Established;
+    conn.path.mtud = mtud::mk_black_hole_ready();
+    assert!(conn.path.current_mtu() == 1452);
+    conn.path.validated = true;
+    conn.spaces[SpaceId::Data].crypto = Some(nullcrypto::keys());
+    conn.highest_space = SpaceId::Data;
+    // drop the handshake spaces so that only the Data space can send
+    conn.spaces[SpaceId::Initial].crypto = None;
+    conn.spaces[SpaceId::Handshake].crypto = None;
+    conn.spaces[SpaceId::Data].loss_probes = 1;
+    conn.spaces[SpaceId::Data].ping_pending = true;
+    let now = crate::verif::mk_instant(51, 0).unwrap();
+    let mut buf = Vec::with_capacity(8 * 1452);
+    let Some(t) = conn.poll_transmit(now, 1, &mut buf) else { panic!("a pending loss probe was not sent") };
+    assert!(t.size <= 1200, "{} byte loss probe exceeds 1200 bytes", t.size);
+    1
+}
